@@ -1,1 +1,2 @@
 import IPT.Thm.C14
+import IPT.Thm.C17
